@@ -226,10 +226,28 @@ def sym_stream(c, kind, name, sizes):
         chunks.append(ch)
     clf = models.StubClassifier(classes=[0, 1], n_classes=2)
 
+    shared = None
+    if kind == "strategy_shared_manager":
+        # the caller hands the same budget-manager object to both twins: each strategy works on its own copy, so the twins
+        # agree although the first one has already processed the stream
+        from harness.C04 import _EXPLICIT
+        mname, mkw = _EXPLICIT[name]
+        K_ = getattr(sl.bm_mod(), mname)
+        rkw = dict(random_state=seed) if "random_state" in inspect.signature(K_.__init__).parameters else {}
+        shared = K_(budget=B, w=2, **mkw, **rkw)
+
     def run(gname):
         facade.set_global_seed(z3.Int(gname))
         res = []
-        if kind == "manager":
+        if kind == "strategy_shared_manager":
+            import skactiveml.stream as st
+            qs = getattr(st, name)(budget_manager=shared, random_state=seed, **mkw)
+            for ch in chunks:
+                idx, ut = qs.query(ch.copy(), clf, return_utilities=True)
+                idl = [int(i) for i in idx]
+                res.append((idl, ut))
+                qs.update(ch.copy(), F.array(idl, dtype=int))
+        elif kind == "manager":
             m = sl.bm_mod()
             kw = dict(budget=B if name != "BalancedIncrementalQuantileFilter" else 0.5)
             if "random_state" in inspect.signature(getattr(m, name).__init__).parameters:
@@ -274,10 +292,27 @@ def replay_stream(inputs, label, kind, name, sizes):
     seed = int(inputs.get("seed", 0))
     chunks = [np.array(inputs[f"chunk{t}"], dtype=float) for t in range(len(sizes))]
     outs = []
+    shared = None
+    if kind == "strategy_shared_manager":
+        import skactiveml.stream.budgetmanager as bmod
+        from harness.C04 import _EXPLICIT
+        mname, mkw = _EXPLICIT[name]
+        K_ = getattr(bmod, mname)
+        rkw = dict(random_state=seed) if "random_state" in inspect.signature(K_.__init__).parameters else {}
+        shared = K_(budget=B, w=2, **mkw, **rkw)
     for g in range(8):
         np.random.seed(g)
         res = []
-        if kind == "manager":
+        if kind == "strategy_shared_manager":
+            import skactiveml.stream as st
+            clf = models.real_table_classifier([(row, p) for _, row, p in inputs.get("__clf__", [])])
+            qs = getattr(st, name)(budget_manager=shared, random_state=seed, **mkw)
+            for ch in chunks:
+                ch = ch.reshape(-1, 1)
+                idx = qs.query(ch.copy(), clf)
+                res.append([int(i) for i in idx])
+                qs.update(ch.copy(), np.asarray(idx, dtype=int))
+        elif kind == "manager":
             bm = sl.real_manager(name, B if name != "BalancedIncrementalQuantileFilter" else 0.5, 100, {}, seed)
             for ch in chunks:
                 idx = list(bm.query_by_utility(ch.copy()))
@@ -502,6 +537,8 @@ def _cfg_stream(tier):
     from harness.C03 import STRATS
     out = [dict(kind="manager", name=m, sizes=[2, 1]) for m in sl.ALL_MANAGERS]
     out += [dict(kind="strategy", name=s, sizes=[2, 1]) for s in STRATS]
+    out += [dict(kind="strategy_shared_manager", name=s, sizes=[2, 1]) for s in ("FixedUncertainty", "VariableUncertainty",
+                                                                                 "RandomVariableUncertainty", "Split")]
     if tier == "thorough":
         out += [dict(kind="manager", name=m, sizes=[2, 2, 1]) for m in sl.ALL_MANAGERS if m != "SplitBudgetManager"]
     return out
